@@ -1186,7 +1186,9 @@ class _Ops:
             waiting = [e for e in culprits if e.buf == "cleared" and e.cause]
             if waiting:
                 culprits = waiting  # only these caches were due for a refresh; fresh link caches are not suspects
-            if generic_pred(x.obj):
+            gen_waiting = [self.state(t_, x.comp) for t_ in [x.obj] + list(self.composites_below(x.obj)) if generic_pred(t_)]
+            gen_waiting = [st_ for st_ in gen_waiting if st_.buf == "cleared" and st_.cause]
+            if generic_pred(x.obj) or (gen_waiting and not waiting):
                 fam, kd = "generic", "C"
             elif culprits:
                 fam = "+".join(sorted({family(e.obj) for e in culprits}))
@@ -1194,7 +1196,7 @@ class _Ops:
             else:
                 fam, kd = family(x.obj), self.kinds(x)
             cause = self.last_change.get(id(x.obj), "-")
-            pending = [e.cause for e in culprits if e.buf == "cleared" and e.cause] + ([x.cause] if generic_pred(x.obj) and x.cause else [])
+            pending = [e.cause for e in culprits if e.buf == "cleared" and e.cause] + ([x.cause] if generic_pred(x.obj) and x.cause else []) + [st_.cause for st_ in gen_waiting]
             if pending:
                 cause = pending[0]
             v.sig = f"stale-obs/{cause}/{fam}/{kd}"
